@@ -9,14 +9,16 @@ from dom_expand import B, field
 MODE = 'expandg'
 
 MARKUP_ABBRS = ['ul>li.item$*3', 'a', 'div.b_m>p.-e', 'p{${foo}}', 'ul>li*', '(', 'a{', 'div>p*2>span', 'lorem-', 'x.a.b', '!', 'table>tr>td', '[', 'input:t', 'p{$#}', '.b>.-e_m', 'ul>li[title=$#]*',
-                'btn', 'h$[t=$$]*2', 'em>b', 'div#a.b', 'form:post', 'br', 'img', 'cc:ie', 'p>{a}+{b}']
+                'btn', 'h$[t=$$]*2', 'em>b', 'div#a.b', 'form:post', 'br', 'img', 'cc:ie', 'p>{a}+{b}', 'lorem-box', 'ul>lorem_item*2', 'lorem5x>b', 'x-badge>.count', 'em>.a', 'div>em>.a', 'my-el>.k+[t]',
+                'a[title=$#]*', 'p>{$#}', 'section>p']
 CSS_ABBRS = ['p10', 'm10-20', 'foo', 'bar', 'w100p', 'c#f', 'pos:a', 'bd1-s', 'lh1.5', 'foo5', 'z10', '(', 'p$', 'fl', 'd:n', 'op.5', 'lg(to right, #0, #f.5)', 'bar2', 'trf:r']
 NESTED_BAD = {'snippets': {'menu': 'nav>item', 'item': 'li[title="]', 'box': 'div>menu'}}          # resolving `item` raises a parse error in the middle of nested resolution
 NESTED_OK = {'snippets': {'menu': 'nav>item', 'item': 'li[title=""]', 'box': 'div>menu'}}
 CSS_NEST = {'type': 'stylesheet', 'snippets': {'bgz': 'background-zoom:zigzag|zebra', 'posx': 'position-x:stuck|floaty'}}      # user properties that nest under built-in ones
 MARKUP_CFGS = [{}, {'syntax': 'jsx'}, {'options': {'bem.enabled': True}}, {'text': ['foo', 'bar']}, {'text': 'wrapped'}, {'syntax': 'pug'}, {'options': {'output.format': False}},
                {'options': {'comment.enabled': True}}, {'snippets': {'x': 'p+q', 'btn': 'button.btn'}}, {'syntax': 'xsl'}, {'maxRepeat': 2}, {'variables': {'foo': 'bar'}},
-               {'options': {'bem.enabled': True, 'bem.element': '--'}, 'text': ['l1', 'l2']}]
+               {'options': {'bem.enabled': True, 'bem.element': '--'}, 'text': ['l1', 'l2']}, {'text': ['  first line', '      second line', '  third line']},
+               {'options': {'inlineElements': ['x-badge', 'my-el', 'a']}}, {'options': {'inlineElements': []}}, {'context': {'name': 'strong'}}, {'context': {'name': 'x-badge'}, 'options': {'inlineElements': ['x-badge']}}]
 CSS_CFGS = [{'type': 'stylesheet'}, {'type': 'stylesheet', 'options': {'stylesheet.intUnit': 'pt'}}, {'type': 'stylesheet', 'options': {'stylesheet.intUnit': 'rem', 'stylesheet.floatUnit': '%'}},
             {'type': 'stylesheet', 'syntax': 'sass'}, {'type': 'stylesheet', 'snippets': {'foo': 'foo-prop:10', 'bar': 'bar-prop:1.5|auto'}},
             {'type': 'stylesheet', 'snippets': {'foo': 'foo-prop:10', 'bar': 'bar-prop:1.5|auto'}, 'options': {'stylesheet.intUnit': 'pt', 'stylesheet.floatUnit': 'rem'}},
@@ -63,6 +65,18 @@ def cases(tier, seed, prop):
             probe = {'s': rnd.choice(['.-title', 'span.-x', '.-item._on']), 'cfg': 0, 'cache': False, 'ctxclass': rnd.choice(names)}
             out.append({'cfgs': cfgs, 'as_object': as_object, 'hist': hist, 'probe': probe, 'g': 'bem-context'})
             continue
+        if not css and .16 <= r_ < .24:
+            # the same parent name judged inline by one call's options and block-level by another's: the implicit name of its child follows
+            # the options of the call that is being made
+            nm = rnd.choice(['x-badge', 'my-el', 'em', 'strong', 'q'])
+            cfgs = [rnd.choice([{}, {'options': {'inlineElements': []}}, {'context': {'name': nm}}]),
+                    rnd.choice([{'options': {'inlineElements': ['x-badge', 'my-el', 'a']}}, {'options': {'inlineElements': []}}, {'context': {'name': nm}, 'options': {'inlineElements': [nm]}}])]
+            as_object = [rnd.random() < .3, rnd.random() < .3]
+            for i in range(rnd.randint(1, 4)):
+                hist.append({'s': rnd.choice(['%s>.count' % nm, 'div>%s>.a+[t]' % nm, '.x>.y', '%s>.k' % nm]), 'cfg': rnd.choice([0, 1]), 'cache': False})
+            probe = {'s': rnd.choice(['%s>.count' % nm, 'div>%s>.a' % nm, '.z']), 'cfg': rnd.choice([0, 1]), 'cache': False}
+            out.append({'cfgs': cfgs, 'as_object': as_object, 'hist': hist, 'probe': probe, 'g': 'inline-table'})
+            continue
         if not css and r_ < .16:
             # a call that fails in the middle of nested snippet resolution, then the same aliases with a correct table
             cfgs = [copy.deepcopy(NESTED_BAD), copy.deepcopy(NESTED_OK)]; as_object = [rnd.random() < .3, rnd.random() < .3]
@@ -83,7 +97,7 @@ def cases(tier, seed, prop):
             ab = rnd.choice(pool_a)
             if rnd.random() < .15: ab = gens.mutate(rnd, ab, gens.ABBR_ALPHA)
             hist.append({'s': ab, 'cfg': rnd.randrange(k), 'cache': shared_cache and rnd.random() < .8})
-        probe = {'s': rnd.choice([a for a in pool_a if 'lorem' not in a]), 'cfg': rnd.randrange(k), 'cache': shared_cache and rnd.random() < .7}
+        probe = {'s': rnd.choice([a for a in pool_a if a not in ('lorem-',)]), 'cfg': rnd.randrange(k), 'cache': shared_cache and rnd.random() < .7}
         out.append({'cfgs': cfgs, 'as_object': as_object, 'hist': hist, 'probe': probe, 'g': 'css' if css else 'markup'})
     return out
 
@@ -197,8 +211,8 @@ def run(case, prop):
 
 def compare(case, line, ml):
     p = case['probe']; c = case['cfgs'][p['cfg']]
-    low = p['s'].lower()
-    if 'lorem' in low: return None
+    import re as _re
+    if any(_re.fullmatch(r'lorem([a-z]*)(\d*)(-\d*)?', nm) for nm in _re.findall(r'[A-Za-z][\w:-]*', p['s'])): return None      # a lorem generator: random by design
     o = c.get('options') or {}
     if o.get('bem.enabled') or o.get('comment.enabled'): return None         # add-ons not modelled
     ctx = (c.get('context') or {}).get('name')
